@@ -311,7 +311,7 @@ pub fn check() -> Check {
         rule: "base histories of 120 calls from the single-instance driver (crafted/corrupted datagrams, timers in/out of order, every API method) executed three times on fresh instances with the same seed: twice verbatim (determinism) and once with 1..=5 rejected inputs of 12 classes inserted at random points (class verified by the harness's own staged parse); every undisturbed call must produce identical results, datagrams, timers, notifications and post-state, and the RNG position is compared through 8 further random-dependent calls. Non-trivial: at least one insertion; distinct by (case, classes, points).",
         assumptions: &["the harness handler/codec are deterministic"],
         required: &["twin_runs_completed", "inserted/StaleTimer", "inserted/Undecodable", "inserted/NotForUs", "inserted/InvalidConfig"],
-        workloads: vec![Workload { name: "twin", f: twin_case, quick: 12_000, thorough: 600_000, flav: Flav::Checked }],
+        workloads: vec![Workload { name: "twin", f: twin_case, quick: 48_000, thorough: 600_000, flav: Flav::Checked }],
         exhaustive: false,
         aggregate: None,
     }
